@@ -1,3 +1,150 @@
 import Driver.Common
-/- stub: model driver for C01 not built yet -/
-def main : IO Unit := Driver.lineLoop (fun _ => "unimplemented")
+import ThriftVerif.Lib.Names
+import ThriftVerif.Generated.C01
+
+/-!
+  Model driver for C01 (tv_c01): reads the op lines written by harness/cmd/c01 (see observe.go) and answers
+  from `Names` what the generated file declares: outcome, package-level identifiers, struct members, method
+  parameters, import table.  `identify` is the table of `I` lines (the real naming style, as data).
+-/
+namespace Driver.C01
+open Names
+
+structure St where
+  ft : Feat := {}
+  table : Table := []                 -- raw name -> identified name
+  -- current file, definitions in reverse order of arrival
+  svcs : List Svc := []
+  structs : List SL := []
+  enums : List Enm := []
+  tdefs : List Tdef := []
+  consts : List Bytes := []
+  incs : List (Bytes × Bytes × Bool) := []
+  quals : List Bytes := []
+  bases : List (Bytes × Bool) := []   -- service raw name -> has a base
+
+def identOf (t : Table) (raw : Bytes) : Bytes :=
+  match lk raw t with
+  | some v => v
+  | none => [63] ++ raw   -- "?raw": a missing table entry shows up in the diff
+
+def hex? (s : String) : Bytes := (VL.hexDecode s).getD [63]
+def flag (s : String) : Bool := s == "1" || s.endsWith "=1"
+
+def insertSorted (x : String) : List String → List String
+  | [] => [x]
+  | y :: r => if x ≤ y then x :: y :: r else y :: insertSorted x r
+
+def sortStrs (l : List String) : List String := l.foldr insertSorted []
+
+def asc (b : Bytes) : String := VL.ascii b
+def ascs (l : List Bytes) : List String := l.map asc
+
+/-- the file accumulated so far, in source order -/
+def St.file (s : St) : File :=
+  { services := s.svcs.reverse.map (fun v => { v with fns := v.fns.reverse.map (fun f => { f with args := f.args.reverse, throws := f.throws.reverse }) }),
+    structs :=
+      let all := s.structs.reverse.map (fun v => { v with fields := v.fields.reverse })
+      all.filter (·.cat = .struct) ++ all.filter (·.cat = .union) ++ all.filter (·.cat = .exception),
+    enums := s.enums.reverse.map (fun e => { e with values := e.values.reverse }),
+    typedefs := s.tdefs.reverse, consts := s.consts.reverse }
+
+def St.scope (s : St) : Except Err ScopeNames :=
+  buildScope s.ft Generated.C01.isKeywords s.file (identOf s.table)
+
+def mkFld (n i b : String) : Fld := { name := hex? n, id := (i.toInt?).getD 0, isset := flag b }
+
+def structLine (ft : Feat) (synth : Bool) (s : StructNames) : String :=
+  asc s.goName ++ "=" ++ ",".intercalate (sortStrs (ascs (declaredMembers ft synth s)))
+
+def svcTypeLines (ft : Feat) (ext : List (Bytes × Bool)) (v : SvcNames) : List String :=
+  let hasBase := (ext.find? (·.1 = v.raw)).map (·.2) |>.getD false
+  let synth := v.fns.flatMap fun f => [structLine ft true f.argType] ++ (match f.resType with | some r => [structLine ft true r] | none => [])
+  if ft.noProcessor then synth else
+  let client := asc (v.goName ++ sClient) ++ "=" ++ ",".intercalate (sortStrs (ascs ((if hasBase then [] else [sC, sClientU]) ++ v.fns.map (·.goName))))
+  let proc := asc (v.goName ++ sProcessor) ++ "=" ++ ",".intercalate (sortStrs (ascs (if hasBase then [] else [sProcessorMap, sHandler, sAddToProcessorMap, sGetProcessorFunction, sProcessorMapM, sProcess])))
+  let pfs := v.fns.map fun f => asc (unexport (v.goName ++ sProcessor) ++ f.goName) ++ "=" ++ ",".intercalate (sortStrs (ascs [sHandler, sProcess]))
+  [client, proc] ++ pfs ++ synth
+
+def importLines (s : St) : String :=
+  match ImportMgr.init Generated.C01.stdLibs [] with
+  | .error _ => "crash"
+  | .ok im0 =>
+    match includeLoop im0 s.incs.reverse with
+    | .error _ => "crash"
+    | .ok (im1, _) =>
+      let im2 := im1.useStd s.quals
+      "imports " ++ ",".intercalate (sortStrs (im2.resolve.map fun (p, a) => asc p ++ "=" ++ asc a))
+
+def errStr : Err → String
+  | .reserve _ _ _ => "reject:reserve"
+  | .crash => "crash"
+
+def step (s : St) (line : String) : St × String :=
+  match VL.toks line with
+  | "U" :: _ :: be :: rest =>
+    let get (k : String) : Bool := rest.any (fun t => t == k ++ "=1")
+    ({ ft := { compat := get "compat", kuf := get "kuf", deq := get "deq", setter := get "setter", noProcessor := get "noproc",
+               enumAnn := get "enumann", fieldMask := get "fm", halfway := get "halfway", fastgo := be == "fastgo" } }, "ok")
+  | ["I", r, v] => ({ s with table := put (hex? r) (hex? v) s.table }, "ok")
+  | "F" :: _ => ({ ft := s.ft, table := s.table }, "ok")
+  | ["V", n, e] => ({ s with svcs := { name := hex? n, fns := [] } :: s.svcs, bases := (hex? n, flag e) :: s.bases }, "ok")
+  | ["M", n, ow, vd] =>
+    match s.svcs with
+    | v :: r => ({ s with svcs := { v with fns := { name := hex? n, oneway := flag ow, void := flag vd, args := [], throws := [] } :: v.fns } :: r }, "ok")
+    | [] => (s, "bad-op")
+  | ["A", n, i, b] =>
+    match s.svcs with
+    | v :: r => match v.fns with
+      | f :: fr => ({ s with svcs := { v with fns := { f with args := mkFld n i b :: f.args } :: fr } :: r }, "ok")
+      | [] => (s, "bad-op")
+    | [] => (s, "bad-op")
+  | ["X", n, i, b] =>
+    match s.svcs with
+    | v :: r => match v.fns with
+      | f :: fr => ({ s with svcs := { v with fns := { f with throws := mkFld n i b :: f.throws } :: fr } :: r }, "ok")
+      | [] => (s, "bad-op")
+    | [] => (s, "bad-op")
+  | ["S", c, n] =>
+    let cat := if c == "u" then Cat.union else if c == "e" then Cat.exception else Cat.struct
+    ({ s with structs := { name := hex? n, cat := cat, fields := [] } :: s.structs }, "ok")
+  | ["D", n, i, b] =>
+    match s.structs with
+    | v :: r => ({ s with structs := { v with fields := mkFld n i b :: v.fields } :: r }, "ok")
+    | [] => (s, "bad-op")
+  | ["E", n] => ({ s with enums := { name := hex? n, values := [] } :: s.enums }, "ok")
+  | ["W", n] =>
+    match s.enums with
+    | e :: r => ({ s with enums := { e with values := hex? n :: e.values } :: r }, "ok")
+    | [] => (s, "bad-op")
+  | ["Y", n, b] => ({ s with tdefs := { alias := hex? n, structTarget := flag b } :: s.tdefs }, "ok")
+  | ["C", n] => ({ s with consts := hex? n :: s.consts }, "ok")
+  | ["N", pkg, pth, same] => ({ s with incs := (hex? pkg, hex? pth, flag same) :: s.incs }, "ok")
+  | "Q" :: qs => ({ s with quals := qs.map hex? }, "ok")
+  | ["QO"] =>
+    match s.scope with
+    | .error e => (s, errStr e)
+    | .ok _ => (s, "ok")
+  | ["QG"] =>
+    match s.scope with
+    | .error e => (s, errStr e)
+    | .ok sc => (s, "globals " ++ ",".intercalate (sortStrs (ascs (fileGlobals s.ft sc))))
+  | ["QT"] =>
+    match s.scope with
+    | .error e => (s, errStr e)
+    | .ok sc =>
+      let ls := sc.structs.map (structLine s.ft false) ++ sc.services.flatMap (svcTypeLines s.ft s.bases)
+      (s, "types " ++ ";".intercalate (sortStrs ls))
+  | ["QP"] =>
+    match s.scope with
+    | .error e => (s, errStr e)
+    | .ok sc =>
+      let ls := sc.services.flatMap fun v => v.fns.map fun f => asc v.goName ++ "." ++ asc f.goName ++ "=" ++ ",".intercalate (ascs f.params)
+      (s, "params " ++ ";".intercalate (sortStrs ls))
+  | ["QI"] => (s, importLines s)
+  | [] => (s, "")
+  | _ => (s, "bad-op")
+
+end Driver.C01
+
+def main : IO Unit := Driver.stateLoop ({} : Driver.C01.St) Driver.C01.step
